@@ -137,3 +137,28 @@ func IsOwnedBy(obj, owner map[string]any) bool {
 	}
 	return false
 }
+
+// OwnerRevisionInPass is the revision the pass works with: an ObjectSet read with status.revision 0
+// gets its revision assigned by the pass itself (1 without previous revisions, otherwise the value
+// the pass persisted through a status update before reconciling phases).
+func OwnerRevisionInPass(pv *PassView) int64 {
+	rev := OwnerRevision(pv.Owner)
+	if rev != 0 {
+		return rev
+	}
+	switch asStr(pv.Owner["kind"]) {
+	case "ObjectSetPhase", "ClusterObjectSetPhase":
+		return rev
+	}
+	if len(asList(asMap(pv.Owner["spec"])["previous"])) == 0 {
+		return 1
+	}
+	for _, c := range pv.Calls {
+		if c.Actor == "pko" && c.Verb == "update-status" && c.Key == pv.OwnerKey && c.Err == "" {
+			if v := asInt(asMap(asMap(c.Body)["status"])["revision"]); v != 0 {
+				return v
+			}
+		}
+	}
+	return 0
+}
